@@ -292,7 +292,10 @@ Decision(d, cf, fl) ==
     IF cf # {} THEN [failed |-> fl \cup cf \cup {d}, pend |-> None, dev |-> {}]
     ELSE IF ListedFailure(d, fl) /\ "F1" \notin KnownDev THEN [failed |-> fl \cup {d}, pend |-> None, dev |-> {}]
     ELSE IF Lists[d] \cap xs.missing # {}
-         THEN [failed |-> fl, pend |-> None, dev |-> IF "F5" \in KnownDev THEN {"F5"} ELSE {}]
+         \* (the finding is about files that are REALLY on neither side; a `missing` set that holds anything else is not it)
+         THEN [failed |-> fl, pend |-> None,
+               dev |-> IF "F5" \in KnownDev /\ \E f \in Lists[d] \cap xs.missing : ~Present(store, xs.src, f) /\ ~Present(store, xs.dst, f)
+                       THEN {"F5"} ELSE {}]
     ELSE [failed |-> fl, pend |-> d, dev |-> IF ListedFailure(d, fl) THEN {"F1"} ELSE {}]
 
 \* The batch handed to the previous dest.add() has returned: its epilogue verifies
